@@ -7,15 +7,20 @@ for name in names:
     d = os.path.join(ROOT, "seeded", name)
     meta = json.load(open(os.path.join(d, "meta.json")))
     pid = meta["breaks_property"]
+    # the checks named as catching it ("Cnn quick: ..."); the property's own check first
+    pids = [pid] + [c for c in dict.fromkeys(re.findall(r"^(C\d\d)[ :]", "\n".join(meta.get("caught_by", [])), re.M)) if c != pid]
+    runs = []
     assert subprocess.run(["git", "-C", "/repo", "status", "--porcelain", "--untracked-files=no"], capture_output=True, text=True).stdout.strip() == "", "/repo not clean"
     subprocess.run(["git", "-C", "/repo", "apply", os.path.join(d, "patch.diff")], check=True)
     try:
-        p = subprocess.run([os.path.join(ROOT, "check"), pid, "--tier", "quick", "--no-evidence"], capture_output=True, text=True, cwd=ROOT)
+        for c in pids:
+            p = subprocess.run([os.path.join(ROOT, "check"), c, "--tier", "quick", "--no-evidence"], capture_output=True, text=True, cwd=ROOT)
+            lines = [l for l in p.stdout.splitlines() if "VIOLATION" in l or l.strip().startswith("key=") or " rc=" in l]
+            new = re.search(r" new=(\d+)", p.stdout)
+            runs.append({"check": f"./check {c} --tier quick", "exit": p.returncode, "new_violations": int(new.group(1)) if new else None,
+                         "keys": sorted({re.search(r"key=(\S+)", l).group(1) for l in lines if "key=" in l})[:8]})
     finally:
         subprocess.run(["git", "-C", "/repo", "checkout", "--", "."], check=True)
-    lines = [l for l in p.stdout.splitlines() if "VIOLATION" in l or l.strip().startswith("key=") or " rc=" in l]
-    new = re.search(r" new=(\d+)", p.stdout)
-    meta["applied_to_repo_run"] = {"check": f"./check {pid} --tier quick", "exit": p.returncode, "new_violations": int(new.group(1)) if new else None,
-                                    "keys": sorted({re.search(r"key=(\S+)", l).group(1) for l in lines if "key=" in l})[:8]}
+    meta["applied_to_repo_run"] = runs[0] if len(runs) == 1 else runs
     json.dump(meta, open(os.path.join(d, "meta.json"), "w"), indent=1)
-    print(name, "exit", p.returncode, "new", meta["applied_to_repo_run"]["new_violations"], meta["applied_to_repo_run"]["keys"][:3])
+    print(name, [(r["check"].split()[1], "exit", r["exit"], "new", r["new_violations"]) for r in runs])
